@@ -27,13 +27,13 @@ pub fn prop() -> Prop {
     .random(
         "documents",
         check_document,
-        |t| if t == Tier::Quick { 6_000 } else { 160_000 },
+        |t| if t == Tier::Quick { 12_000 } else { 300_000 },
         |t| if t == Tier::Quick { 600 } else { 900 },
     )
     .random(
         "operations",
         check_operation,
-        |t| if t == Tier::Quick { 6_000 } else { 300_000 },
+        |t| if t == Tier::Quick { 24_000 } else { 600_000 },
         |t| if t == Tier::Quick { 700 } else { 1000 },
     )
     .case_timeout(60)
